@@ -1,10 +1,9 @@
 package ethereum
 
 import (
+	"bytes"
 	"encoding/hex"
-	"fmt"
 	"math/big"
-	"strings"
 
 	"github.com/ethereum/go-ethereum/accounts/abi"
 	"github.com/ethereum/go-ethereum/common"
@@ -23,19 +22,38 @@ func mapkey(m map[string]string, value string) (key string, ok bool) {
 	return
 }
 
-// parseERC20Lock it takes in a rawTX byte array for a ERC20Lock and a function signature .
-//It returns the parameters passed when calling the function
-func parseERC20Lock(data []byte, functionSig string) (req *LockErcRequest, err error) {
-	ss := strings.Split(hex.EncodeToString(data), functionSig)
-
-	tokenAmount, err := hex.DecodeString(ss[1][64:128])
+// ercCallData decodes the rawTX byte array and returns the arguments of its call data, which has to start with
+// the function signature and carry at least argsLen bytes of arguments after it
+func ercCallData(data []byte, functionSig string, argsLen int) ([]byte, error) {
+	selector, err := hex.DecodeString(functionSig)
 	if err != nil {
 		return nil, err
 	}
-	receiver := ss[1][24:64]
-	amt := big.NewInt(0).SetBytes(tokenAmount)
+	tx, err := DecodeTransaction(data)
+	if err != nil {
+		return nil, err
+	}
+	input := tx.Data()
+	if !bytes.HasPrefix(input, selector) {
+		return nil, errors.New("Transaction does not have the required input data")
+	}
+	if len(input) < len(selector)+argsLen {
+		return nil, errors.New("Transaction data is invalid")
+	}
+	return input[len(selector):], nil
+}
+
+// parseERC20Lock it takes in a rawTX byte array for a ERC20Lock and a function signature .
+//It returns the parameters passed when calling the function
+func parseERC20Lock(data []byte, functionSig string) (req *LockErcRequest, err error) {
+	// the arguments of transfer(address,uint256) are the 32 byte word of the receiver and the 32 byte amount
+	args, err := ercCallData(data, functionSig, 64)
+	if err != nil {
+		return nil, err
+	}
+	amt := big.NewInt(0).SetBytes(args[32:64])
 	return &LockErcRequest{
-		Receiver:    common.HexToAddress(receiver),
+		Receiver:    common.BytesToAddress(args[12:32]),
 		TokenAmount: amt,
 	}, nil
 }
@@ -43,17 +61,15 @@ func parseERC20Lock(data []byte, functionSig string) (req *LockErcRequest, err e
 // parseERC20Redeem it takes in a rawTX byte array for a ERC20Redeem and a function signature .
 // It returns the parameters passed when calling the function
 func parseERC20Redeem(data []byte, functionSig string) (req *RedeemErcRequest, err error) {
-	ss := strings.Split(hex.EncodeToString(data), functionSig)
-	tokenAddress := ss[1][88:128]
-	amount, err := hex.DecodeString(ss[1][:64])
+	// the arguments of redeem(uint256,address) are the 32 byte amount and the 32 byte word of the token address
+	args, err := ercCallData(data, functionSig, 64)
 	if err != nil {
 		return nil, err
 	}
-	amt := big.NewInt(0).SetBytes(amount)
-	fmt.Println(tokenAddress)
+	amt := big.NewInt(0).SetBytes(args[:32])
 	return &RedeemErcRequest{
 		Amount:       amt,
-		TokenAddress: common.HexToAddress(tokenAddress),
+		TokenAddress: common.BytesToAddress(args[44:64]),
 	}, nil
 }
 
